@@ -39,10 +39,16 @@ type langState struct {
 	signs map[types.Object]string // float/int variables: "", "ge0", "lt0"
 	out   *DFA
 	done  bool // the path has returned
+	// string variables whose text is already part of the output: a later test of such a variable
+	// says something about text that is written, which the refinement of the variable does not reach
+	emitted map[types.Object]bool
 }
 
 func (s *langState) clone() *langState {
-	n := &langState{strs: map[types.Object]*DFA{}, bools: map[types.Object]bool{}, signs: map[types.Object]string{}, out: s.out, done: s.done}
+	n := &langState{strs: map[types.Object]*DFA{}, bools: map[types.Object]bool{}, signs: map[types.Object]string{}, out: s.out, done: s.done, emitted: map[types.Object]bool{}}
+	for k := range s.emitted {
+		n.emitted[k] = true
+	}
 	for k, v := range s.strs {
 		n.strs[k] = v
 	}
@@ -349,6 +355,17 @@ func (li *leafInterp) exec(st *langState, s ast.Stmt, fd *ast.FuncDecl) []*langS
 			if ok {
 				st.out = concatDFA(st.out, d)
 			}
+			if st.emitted == nil {
+				st.emitted = map[types.Object]bool{}
+			}
+			ast.Inspect(call.Args[0], func(y ast.Node) bool {
+				if id, isId := y.(*ast.Ident); isId {
+					if o := li.info.Uses[id]; o != nil {
+						st.emitted[o] = true
+					}
+				}
+				return true
+			})
 			return []*langState{st}
 		}
 		// the append written out: buffer.WriteString(text) on the formatter's own buffer field
@@ -407,6 +424,9 @@ func (li *leafInterp) exec(st *langState, s ast.Stmt, fd *ast.FuncDecl) []*langS
 		// string refinement
 		if o, lang, ok := li.condLang(cond); ok {
 			cur, have := st.strs[o]
+			if st.emitted[o] {
+				li.imprecise = true // the text tested is already written: the two branches are not told apart in the output
+			}
 			if have {
 				var out []*langState
 				if t := intersectDFA(cur, lang); !t.isEmpty() {
